@@ -50,6 +50,14 @@ def materialize(box, files, single):
     return root, "payload"
 
 
+def variant(rng, root, single):
+    """(spelling of the content path, progress mode): the creators must not care."""
+    spelled = root
+    if not single and rng.random() < 0.3:
+        spelled = rng.choice([root + "/", root + "//", root + "/.", root.replace("/payload", "//payload")])
+    return spelled, rng.choice([0, 0, 1, 2])
+
+
 def leaves_of(tree, pre=()):
     out = []
     for k, v in tree.items():
